@@ -229,6 +229,8 @@ def model_value(model, v, heap, memo=None):
             else:
                 items = model_value(model, o.sym, heap, memo)
             r = {'__list__': items, 'flavor': o.flavor}
+            if getattr(o, 'maxlen', None) is not None:
+                r['maxlen'] = o.maxlen
         elif isinstance(o, DObj):
             r = {'__dict__': [(model_value(model, getattr(k, 'sym', k), heap, memo), model_value(model, x, heap, memo)) for k, x in o.items.items()]}
         elif isinstance(o, MObj):
